@@ -1169,7 +1169,7 @@ class Engine:
             return self.inline_call(e, f, sp, st)
         return self.contract_call(e, f, sp, st)
 
-    def contract_call(self, e, f, sp, st, ctor_self=None, pre_bound=None):
+    def contract_call(self, e, f, sp, st, ctor_self=None, pre_bound=None, ghost_sets=None, extra_views=None):
         if pre_bound is not None: env, back = pre_bound
         else: env, back = self.bind_args(f, e, st) if ctor_self is None else ctor_self
         cs = st.clone(); cs.env = dict(env); cs.scope = None; cs.ghost = {}
@@ -1179,6 +1179,7 @@ class Engine:
         for gt, gn in sp.ghosts:
             cs.ghost[gn] = self.fresh_val({'real': 'double', 'double': 'double', 'int': 'int', 'uint': 'uint', 'bool': 'bool', 'seq': 'seq<double>', 'seq2': 'seq<seq<double>>'}.get(gt, gt), 'g.' + gn, cs, constrain=(gt in ('seq', 'seq2')))
             if gn in st.ghost: cs.ghost[gn] = st.ghost[gn]     # ghost arguments are passed by name
+            if ghost_sets and gn in ghost_sets[0]: cs.ghost[gn] = ghost_sets[0][gn]
         lam_bind = []
         for p in f.params:
             if p[1] == 'fun' and isinstance(env.get(p[0]), Fun):
@@ -1282,6 +1283,29 @@ class Engine:
         for cl in sp.ensures:
             if cl.engines and 'E2' not in cl.engines: continue
             self.assume_clause(cl.expr, cs)
+        # postconditions that mention ghost parameters hold for every value of them (the callee's proof treats them as
+        # arbitrary): a ghost call may ask for several instances
+        for gs in (ghost_sets or [])[1:]:
+            keep_g = dict(cs.ghost)
+            for gn, gv in gs.items(): cs.ghost[gn] = gv
+            for cl in sp.ensures:
+                if cl.engines and 'E2' not in cl.engines: continue
+                if set(SP.names_in(cl.expr)) & set(gs): self.assume_clause(cl.expr, cs)
+            cs.ghost = keep_g
+        # further views of the same function (each verified as a goal of its own) describe the same call
+        for sp2, gsets2 in (extra_views or []):
+            for gs in (gsets2 or [{}]):
+                keep_g = dict(cs.ghost)
+                for gt, gn in sp2.ghosts:
+                    if gn not in cs.ghost: cs.ghost[gn] = self.fresh_val({'real': 'double', 'int': 'int'}.get(gt, gt), 'g.' + gn, cs, constrain=False)
+                for gn, gv in gs.items(): cs.ghost[gn] = gv
+                old_env = cs.env; pre = st.clone(); pre.env = dict(cs.old); pre.ghost = cs.ghost; pre.scope = None
+                for cl in sp2.requires:
+                    self.check_clause(cl, pre, 'call.requires', what=who + '(view %s) ' % sp2.key.split('~')[-1])
+                for cl in sp2.ensures:
+                    if cl.engines and 'E2' not in cl.engines: continue
+                    self.assume_clause(cl.expr, cs)
+                cs.ghost = keep_g
         for (pname, act, cb, lname, extra, lsp, lf, caps) in lam_info:
             # what the lambda's contract says about its values, at every application that the callee's postconditions mention
             apps = {}
@@ -2298,20 +2322,34 @@ class Verifier(Engine):
                     if isinstance(c, Quant): raise E2Error('lemma %s: quantified conclusion in induction hypothesis' % name)
                     post.append(c)
             st.assume(z3.Implies(z3.And(*(pre + [st.env[v] - 1 >= lb])), z3.And(*post)))
-        for u in lm.uses: self.use_lemma(u, st)
         # ghost calls: `call r = KEY(args)` binds r to the result of the function under its contract (the callee's
         # preconditions and validity are obligations of the lemma, its postconditions are what the lemma may use)
-        for (rname, key, argx) in getattr(lm, 'calls', []):
-            f = self.func(key); sp = self.db.funcs.get(key)
+        for call_ in getattr(lm, 'calls', []):
+            rname, key, argx = call_[:3]
+            gsets_x = call_[3] if len(call_) > 3 else None
+            f = self.func(key.split('~')[0]); sp = self.db.funcs.get(key)
             if sp is None: raise E2Error('lemma %s: no contract for %s' % (name, key))
-            if len(argx) != len(f.params): raise E2Error('lemma %s: %s takes %d arguments' % (name, f.qual, len(f.params)))
             env = {}
+            argx = list(argx)
+            if f.self_rec and f.self_rec != 'lambda' and len(argx) == len(f.params) + 1:
+                env['self'] = self.sv(argx.pop(0), st)       # a method: the first argument is the object
+            if len(argx) != len(f.params): raise E2Error('lemma %s: %s takes %d arguments' % (name, f.qual, len(f.params)))
+            gsets = None
+            if gsets_x:
+                gsets = [{gn: self.sv(gx, st) for gn, gx in gs.items()} for gs in gsets_x]
+            extra = []
+            for vname, vsets in (call_[4] if len(call_) > 4 else []):
+                sp2 = self.db.funcs.get(key.split('~')[0] + '~' + vname)
+                if sp2 is None: raise E2Error('lemma %s: no view %s of %s' % (name, vname, key))
+                extra.append((sp2, [{gn: self.sv(gx, st) for gn, gx in gs.items()} for gs in vsets]))
             for (pn, pt, br), ax in zip(f.params, argx):
                 v = self.sv(ax, st)
                 if pt in INTS and z3.is_real(v): raise E2Error('lemma %s: argument %s of %s must be an integer' % (name, pn, f.qual))
                 if pt == 'double': v = self.to_real(v)
                 env[pn] = v
-            st.env[rname] = self.contract_call(None, f, sp, st, pre_bound=(env, []))
+            st.env[rname] = self.contract_call(None, f, sp, st, pre_bound=(env, []), ghost_sets=gsets, extra_views=extra)
+        # lemma applications come after the ghost calls, so that they may mention the results
+        for u in lm.uses: self.use_lemma(u, st)
         self.vacuity = getattr(self, 'vacuity', [])
         self.vacuity.append((self.prefix, list(st.pc)))
         for cl in lm.ensures: self.check_clause(cl, st, 'ensures')
